@@ -3,6 +3,7 @@
 
   op line (prefix token encoding):
     c03.q   <w> <nv> v_0 … v_{nv-1} <nt> { <ncols> <nrows> cell… }*  <Plan>
+    c03.recu … the same with UNION (distinct) instead of UNION ALL
     c03.rec <w> <limit> <nv> v… <nt> {table}* <Plan anchor> <Plan step> [<Plan final>]
   `w`      = number of worker chunks the model cuts every outer record range into (the answer must not depend on it)
   `v_i`    = profile tokens (Proto.parseProfile); cells and literals are indices into this dictionary
@@ -19,6 +20,7 @@
 -/
 import Csvq.Model.Proto
 import Csvq.Model.Rel
+import Csvq.Model.Keys
 namespace Csvq.Drive.C03
 open Csvq Csvq.Proto Csvq.Rel
 
@@ -279,7 +281,7 @@ def c03 (cmd : String) (args : List String) : String :=
       if !ts.isEmpty then none else
       let env : Env := { tables := tables.toArray, gen := (0, []), w := w }
       (eval env plan).map showRes).getD bad
-  | "rec" =>
+  | "rec" | "recu" =>
     (do
       let (w, ts) ← pNat args
       let (limit, ts) ← pNat ts
@@ -303,7 +305,10 @@ def c03 (cmd : String) (args : List String) : String :=
         match eval { env with gen := (aw, g) } stepP with
         | some (_, rows) => rows
         | none => []
-      match recursiveImpl step limit a with
+      -- `recu`: UNION (distinct), records compared by their comparison keys (C04's normalisation)
+      let res := if cmd == "recu" then recursiveUnionImpl (fun (r : Row) => r.map norm) step limit a
+                 else recursiveImpl step limit a
+      match res with
       | some out =>
         (match finalP with
         | none => some (showRes (aw, out))
